@@ -160,6 +160,11 @@ def seed_origin(prog, f, expr):
         return "NONE"
     if isinstance(expr, ast.Constant):
         return "NONE" if expr.value is None else "CONST"
+    # a local bound exactly once stands for its defining expression
+    if isinstance(expr, ast.Name) and f is not None and expr.id not in f.params():
+        defs = [n.value for n in ast.walk(f.node) if isinstance(n, ast.Assign) and len(n.targets) == 1 and isinstance(n.targets[0], ast.Name) and n.targets[0].id == expr.id]
+        if len(defs) == 1 and not any(isinstance(x, ast.Name) and x.id == expr.id for x in ast.walk(defs[0])):
+            return seed_origin(prog, f, defs[0])
     found = set()
     for n in ast.walk(expr):
         if isinstance(n, ast.Call):
